@@ -191,3 +191,13 @@ func vStrHas(s string, c byte) bool {
 func vQuiesce()                        { time.Sleep(150 * time.Millisecond) }
 func vThreadsLive() int                { return -1 }
 func vDeepEqual(a, b interface{}) bool { return reflect.DeepEqual(a, b) }
+
+// nondetJSONMut: a valid encoding (template) with up to k arbitrary structural mutations.
+func nondetJSONMut(tag, base string, k, cap int) []byte {
+	v, ok := vNext(tag, "string")
+	if !ok {
+		return []byte("null")
+	}
+	s, _ := v.(string)
+	return []byte(s)
+}
